@@ -335,13 +335,13 @@ pub fn o_insert<const L: usize, const N: usize>() {
         nd::assume(fid != g[i].f.id.to_u128());
         i += 1;
     }
-    let f = mk_frame(topic::<L>(), nd::any_u128(), fid, sym_ttl_time());
+    let f = mk_frame(topic::<L>(), nd::any_u128(), fid, ttl_kind());
     let r = sut.store.insert_frame(&f);
     hx_check!(r.is_ok(), "C20 import of a NUL-free frame is accepted");
     let m = env::trace::mon();
     hx_check!(c04_one_insert_batch(&m), "C04 an accepted frame is written as ONE atomic batch holding exactly its three index entries, nothing outside it");
     hx_check!(c04_synced(&m), "C04 the batch is fsynced (SyncAll) before the write is acknowledged");
-    hx_check!(m.broadcasts == 0 && sut.gc_rx.model_len() == 0, "C20 import neither broadcasts nor triggers GC");
+    hx_check!(m.broadcasts == 0 && sut.gc_rx.model_len() == 0, "C20 import stores a frame as is: it neither broadcasts nor triggers GC (whatever the frame's ttl)");
     let back = sut.store.get(&f.id);
     hx_check!(
         matches!(&back, Some(x) if x.id == f.id && x.context_id == f.context_id && topic_eq(&x.topic, &f.topic) && x.ttl == f.ttl && x.hash == f.hash && x.meta == f.meta),
@@ -366,7 +366,7 @@ pub fn o_insert<const L: usize, const N: usize>() {
         i += 1;
     }
     hx_check!(found && sorted, "C20 an imported frame appears at its id's position in the stream, not at the end");
-    hx_cover!(fid < g[0].f.id.to_u128(), "imported frame sorts before every existing frame");
+    hx_cover!(fid < g[0].f.id.to_u128() && matches!(f.ttl, Some(TTL::Head(_))), "an imported head:N frame that sorts before every existing frame");
     core::mem::forget(back);
     core::mem::forget(sut);
     core::mem::forget(g);
@@ -680,6 +680,31 @@ pub fn o_gc_remove<const L: usize, const N: usize>() {
     core::mem::forget(g);
 }
 
+/// C04 (concrete bytes): the collector removes a frame (queued Remove), then the client removes the
+/// same id explicitly. Once that explicit remove is acknowledged, no committed batch it relies on -
+/// the collector's tombstones included - may be left without fsync.
+pub fn o_gc_then_remove() {
+    env::reset_all();
+    env::fjall::set_limit(2);
+    let sut = mk_store(2);
+    let t = 1000u128 << 80;
+    let f = mk_frame("a".to_string(), 0, t + 1, None);
+    install_one(&f);
+    env::trace::reset();
+    let _ = sut.store.gc_tx.send(GCTask::Remove(f.id));
+    gc_drain(&sut);
+    let gone = sut.store.get(&f.id);
+    hx_check!(gone.is_none(), "C08 a queued Remove deletes the frame it names");
+    let r = sut.store.remove(&f.id);
+    hx_check!(r.is_ok(), "remove succeeds");
+    let m = env::trace::mon();
+    hx_check!(m.unsynced_commits == 0 && m.persists_weak == 0 && m.direct_writes == 0, "C04 an acknowledged remove is durable: no committed batch it relies on - the collector's included - is left without fsync");
+    hx_cover!(m.commits >= 1, "the collector committed its tombstones");
+    core::mem::forget(gone);
+    core::mem::forget(sut);
+    core::mem::forget(f);
+}
+
 /// "process restart": every in-memory structure (channels, registry set, task table) is gone,
 /// the model keyspace survives; the REAL `Store::new` then rebuilds from it.
 pub fn reopen() -> Store {
@@ -821,50 +846,40 @@ pub fn o_gc_task<const L: usize, const Q: usize, const N: usize>() {
     core::mem::forget(qt);
 }
 
-/// C08/C09 end to end, concrete bytes: frames "a" x3 and a prefix-related "ab" in context 0, "a"
-/// in another context; a REAL `head:K` append (K per instance) on ("a", 0); the REAL gc worker.
-/// Exactly the members of ("a", 0) outside the K newest are gone.
-pub fn o_gc_e2e<const K: u32>() {
+/// C08/C09 end to end, concrete bytes: "a", the prefix-related "ab" and another "a" in context 0;
+/// a REAL `head:1` append on ("a", 0); the REAL gc worker. Both older "a" frames are gone (not
+/// just one), "ab" is untouched, the new frame is the head.
+pub fn o_gc_e2e() {
     env::reset_all();
-    env::fjall::set_limit(6);
+    env::fjall::set_limit(4);
     let sut = mk_store(2);
-    let other = 77u128 << 80;
-    sut.store.contexts.write().unwrap().insert(sid(other));
     let t = 1000u128 << 80;
     let fs = [
         mk_frame("a".to_string(), 0, t + 1, None),
         mk_frame("ab".to_string(), 0, t + 2, None),
-        mk_frame("a".to_string(), other, t + 3, None),
-        mk_frame("a".to_string(), 0, t + 4, Some(TTL::Forever)),
-        mk_frame("a".to_string(), 0, t + 5, None),
+        mk_frame("a".to_string(), 0, t + 3, Some(TTL::Forever)),
     ];
     let mut i = 0;
-    while i < 5 {
+    while i < 3 {
         install_one(&fs[i]);
         i += 1;
     }
     env::trace::reset();
-    env::scru::force_next(t + 6);
-    let r = sut.store.append(mk_frame("a".to_string(), 0, 0, Some(TTL::Head(K))));
+    env::scru::force_next(t + 4);
+    let r = sut.store.append(mk_frame("a".to_string(), 0, 0, Some(TTL::Head(1))));
     hx_check!(r.is_ok(), "append succeeds");
     gc_drain(&sut);
-    // members of ("a", 0), newest first: t+6, t+5, t+4, t+1
-    let members = [t + 6, t + 5, t + 4, t + 1];
-    let mut k = 0;
-    while k < 4 {
-        let st = sut.store.get(&sid(members[k]));
-        hx_check!(st.is_some() == ((k as u32) < K), "C09 after the collector drained, a head:K topic holds its K newest frames and nothing older");
-        core::mem::forget(st);
-        k += 1;
-    }
-    let p = sut.store.get(&sid(t + 2));
-    let o = sut.store.get(&sid(t + 3));
-    hx_check!(p.is_some() && o.is_some(), "C08 garbage collection of one topic never touches a prefix-related topic or another context");
-    let h = sut.store.head("a", ZERO_CONTEXT).map(|f| f.id);
-    hx_check!(h == Some(sid(t + 6)), "C09 the newest frame of the topic is its head after collection");
+    let a1 = sut.store.get(&sid(t + 1));
+    let ab = sut.store.get(&sid(t + 2));
+    let a3 = sut.store.get(&sid(t + 3));
+    let a4 = sut.store.get(&sid(t + 4));
+    hx_check!(a1.is_none() && a3.is_none() && a4.is_some(), "C09 after the collector drained, a head:K topic holds its K newest frames and nothing older");
+    hx_check!(ab.is_some(), "C08 garbage collection of one topic never touches a prefix-related topic");
     hx_cover!(true, "reached");
-    core::mem::forget(p);
-    core::mem::forget(o);
+    core::mem::forget(a1);
+    core::mem::forget(ab);
+    core::mem::forget(a3);
+    core::mem::forget(a4);
     core::mem::forget(r);
     core::mem::forget(sut);
     core::mem::forget(fs);
@@ -961,6 +976,34 @@ pub fn o_remove_head<const L: usize>() {
     core::mem::forget(g);
 }
 
+/// C20/C05: re-import of a stored frame with an amended ttl (export, edit, import - same id, topic and
+/// context): the frame keeps exactly one entry in every stream and stays findable every way.
+pub fn o_reimport_amend<const L: usize>() {
+    env::reset_all();
+    env::fjall::set_limit(2);
+    let sut = mk_store(2);
+    let f = mk_frame(topic::<L>(), nd::any_u128(), nd::any_u128(), None);
+    install_one(&f);
+    env::trace::reset();
+    let f2 = mk_frame(f.topic.clone(), f.context_id.to_u128(), f.id.to_u128(), Some(TTL::Forever));
+    let r2 = sut.store.insert_frame(&f2);
+    hx_check!(r2.is_ok(), "C20 re-import is accepted");
+    let (cids, n_ctx, more_ctx) = {
+        let mut it = sut.store.iter_frames(Some(f.context_id), None);
+        take_ids::<2>(&mut *it)
+    };
+    hx_check!(n_ctx == 1 && !more_ctx && cids[0] == f.id.to_u128(), "C05 a re-imported frame is still in its own context's stream, once");
+    let h = sut.store.head(&f.topic, f.context_id).map(|x| x.id);
+    hx_check!(h == Some(f.id), "C05 a re-imported frame is still the head of its topic");
+    let back = sut.store.get(&f.id);
+    hx_check!(matches!(&back, Some(x) if matches!(x.ttl, Some(TTL::Forever))), "C20 a re-imported frame is stored as given");
+    hx_cover!(true, "reached");
+    core::mem::forget(back);
+    core::mem::forget(sut);
+    core::mem::forget(f);
+    core::mem::forget(f2);
+}
+
 /// C20: importing the identical frame again changes nothing (one stream entry, same lookup).
 pub fn o_reimport_k<const L: usize>() {
     env::reset_all();
@@ -1026,9 +1069,9 @@ crate::scenarios! {
     o_gc_task_1_1_2 => o_gc_task::<1, 1, 2>();
     o_gc_task_1_2_2 => o_gc_task::<1, 2, 2>();
     o_gc_task_2_1_2 => o_gc_task::<2, 1, 2>();
-    o_gc_e2e_1 => o_gc_e2e::<1>();
-    o_gc_e2e_2 => o_gc_e2e::<2>();
-    o_gc_e2e_3 => o_gc_e2e::<3>();
+    o_gc_e2e_all => o_gc_e2e();
+    o_gc_then_remove_all => o_gc_then_remove();
+    o_reimport_amend_1 => o_reimport_amend::<1>();
     o_read_sync_k_1 => o_read_sync_k::<1>();
     o_read_sync_k_0 => o_read_sync_k::<0>();
     o_remove_k_1_1 => o_remove_k::<1, 1>();
